@@ -94,6 +94,10 @@ package encoding
 //@   ensures drop_outside: len(result) > 0 ==> (let d = (U - untilOf(result)) / resolution in forall k in d..d+periodsOf(result, width) :: (abs(asOf) == 0 || U - k*resolution > abs(asOf)) && (abs(until) == 0 || U - k*resolution - resolution < abs(until)))
 //@   instance res1s_w9: resolution == 1000000000 && width == 9
 //@   instance res250ms_w17: resolution == 250000000 && width == 17
+//@   instance res3s_w9: resolution == 3000000000 && width == 9
+//@   ensures origin: len(result) > 0 ==> obj(result) == obj(seq) || fresh(result)
+//@   ensures until_bound: len(result) > 0 && abs(until) != 0 ==> untilOf(result) <= abs(until)
+//@   ensures asof_bound: len(result) > 0 && abs(asOf) != 0 ==> untilOf(result) - periodsOf(result, width)*resolution > abs(asOf) - resolution
 //@   ensures nothing_kept: len(result) == 0 ==> forall k in 0..n :: !((abs(asOf) == 0 || U - k*resolution - resolution >= abs(asOf)) && (abs(until) == 0 || U - k*resolution <= abs(until)))
 //@   nopanic
 
@@ -140,3 +144,46 @@ package encoding
 //@   instance res1s_w9: resolution == 1000000000 && e.EncodedWidth() == 9
 //@   instance res250ms_w17: resolution == 250000000 && e.EncodedWidth() == 17
 //@   nopanic
+
+//@ func NewSequence
+//@   requires width >= 0 && numPeriods >= 0
+//@   ensures shape: fresh(result) && obj(result) != 0 && off(result) == 0 && len(result) == 8 + numPeriods*width && cap(result) == len(result)
+//@   ensures zeroed: forall p in 0..len(result) :: result[p] == 0
+//@   nopanic
+
+//@ func (Sequence).AsOf
+//@   requires len(seq) == 0 || (len(seq) >= 8 && width != 0)
+//@   ensures empty: len(seq) == 0 ==> abs(result) == 0
+//@   ensures val: len(seq) > 0 ==> abs(result) == untilOf(seq) - periodsOf(seq, width)*resolution
+//@   pureheap
+//@   nopanic
+
+// SubMerge (C06): re-aggregation of fine periods into coarse ones. For an unshifted expression, with both sequences on
+// their grids: every fine period kept by the window lands in a coarse period that exists in the result (no_drop: the
+// capacity computed from periodsToPrepend/periodsToAppend always suffices, so the `p >= resultPeriods` break is never
+// taken), and it lands in the coarse period whose span (T-P, T] contains its end (bucket).
+//@ func (Sequence).SubMerge
+//@   let w = ex.EncodedWidth()
+//@   let ow = otherEx.EncodedWidth()
+//@   requires exprs: ex != nil && otherEx != nil && submerge != nil && ex.Shift() == 0 && w > 0 && ow > 0
+//@   requires wf: wfSeq(seq, w) && wfSeq(other, ow) && len(other) > 8
+//@   requires res: otherResolution > 0 && resolution >= otherResolution && resolution % otherResolution == 0 && resolution < 1152921504606846976
+//@   requires window: abs(asOf) != 0 && abs(until) != 0 && normalAbs(abs(asOf)) && normalAbs(abs(until)) && abs(asOf) < abs(until) && normalAbs(untilOf(other)) && (len(seq) > 0 ==> normalAbs(untilOf(seq)))
+//@   requires grids: emod(untilOf(other) - abs(until), otherResolution) == 0 && (len(seq) > 0 ==> emod(abs(until) - untilOf(seq), resolution) == 0)
+//@   requires span: periodsOf(seq, w) * resolution < 1152921504606846976 && periodsOf(other, ow) * otherResolution < 1152921504606846976
+//@   requires separate: len(seq) == 0 || obj(seq) != obj(other)
+//@   modifies *
+//@   ensures no_drop: otherPeriods > 0 ==> untilOffset >= 0 && (otherPeriods - 1 + untilOffset) / scale < resultPeriods
+//@   at call dyn:submerge assert bucket: 0 <= p && p < resultPeriods && 0 <= po && po < otherPeriods && untilOf(result) - p*resolution - resolution < untilOf(other) - po*otherResolution && untilOf(other) - po*otherResolution <= untilOf(result) - p*resolution
+//@   at call Sequence).NumPeriods after assert cap_lo: scale >= 1 && abs(newAsOf) <= abs(otherUntil) - otherPeriods*otherResolution && untilOffset >= 0 && untilOffset*otherResolution == abs(resultUntil) - abs(otherUntil)
+//@   at call Sequence).NumPeriods after assert cap_hi: scale >= 1 && callresult0*resolution >= abs(resultUntil) - abs(newAsOf)
+//@   at call Sequence).NumPeriods after assert cap: scale >= 1 && callresult0*resolution >= abs(resultUntil) - (abs(otherUntil) - otherPeriods*otherResolution)
+//@   callback submerge modifies callarg0[0:w]
+//@   loop 0 invariant po_range: 0 <= po && po <= otherPeriods
+//@   loop 0 invariant hdr_result: untilOf(result) == abs(resultUntil) && len(result) >= 8
+//@   loop 0 invariant hdr_other: untilOf(other) == abs(otherUntil)
+//@   loop 0 invariant sep: obj(result) != obj(other)
+//@   loop 0 modifies result[8:len(result)]
+//@   instance s1: resolution == 1000000000 && otherResolution == 1000000000 && ex.EncodedWidth() == 9 && otherEx.EncodedWidth() == 9
+//@   instance s3: resolution == 3000000000 && otherResolution == 1000000000 && ex.EncodedWidth() == 9 && otherEx.EncodedWidth() == 9
+//@   nopanic own
